@@ -92,6 +92,53 @@ Definition can_split (doc : node) (pos depth : nat) : res bool :=
           do nb1 <- rp_node r (S base);
           can_replace_with s nb ia ia (node_ty s nb1) [].
 
+(* structure.can_split(doc, pos, depth, types_after): the node types (with attributes) the split-off parts are to get,
+   innermost last; an override replaces the first node of the part that is split off at that level *)
+Fixpoint can_split_ta_go (fuel : nat) (r : rpos) (ta : list (nat * attrs)) (d base i : nat) : res bool :=
+  match fuel with
+  | 0 => Err ErrInternal
+  | S fuel' =>
+    if d <=? base then Ok true
+    else
+      do n <- rp_node r d;
+      do index <- rp_index r d;
+      if isolating n then Ok false
+      else
+        let rest0 := sub_list (node_content n) index (nchildren n) in
+        do rest <- (match nth_error ta (S i) with
+                    | Some (oty, oat) => do c <- type_create s oty oat [] []; Ok (replace_child rest0 0 c)
+                    | None => Ok rest0
+                    end);
+        let after_ty := match nth_error ta i with Some (aty, _) => aty | None => node_ty s n end in
+        do cr <- can_replace0 n (S index) (nchildren n);
+        if negb cr || negb (valid_content s after_ty rest) then Ok false
+        else can_split_ta_go fuel' r ta (d - 1) base (i - 1)
+  end.
+
+Definition can_split_ta (doc : node) (pos depth : nat) (ta : list (nat * attrs)) : res bool :=
+  do r <- resolve s doc pos;
+  if rp_depth r <? depth then Ok false
+  else
+    let base := rp_depth r - depth in
+    do parent <- rp_parent r;
+    do index <- rp_index r (rp_depth r);
+    let inner_ty := match ta with [] => node_ty s parent | _ => fst (List.last ta (0, [])) end in
+    if isolating parent then Ok false
+    else
+      do cr <- can_replace0 parent index (nchildren parent);
+      if negb cr || negb (valid_content s inner_ty (sub_list (node_content parent) index (nchildren parent)))
+      then Ok false
+      else
+        do ok <- (match rp_depth r with 0 => Ok true | S dm1 => can_split_ta_go (S (rp_depth r)) r ta dm1 base (depth - 2) end);
+        if negb ok then Ok false
+        else
+          do ia <- rp_index_after r base;
+          do nb <- rp_node r base;
+          match ta with
+          | (bty, _) :: _ => can_replace_with s nb ia ia bty []
+          | [] => do nb1 <- rp_node r (S base); can_replace_with s nb ia ia (node_ty s nb1) []
+          end.
+
 (* structure.joinable / can_join *)
 Definition joinable_nodes (a b : option node) : res bool :=
   match a, b with
